@@ -682,6 +682,7 @@ def object_streams(ctx: Ctx, book: Book, cover: Cover, pool: dict, by_value: dic
     from harness import roundtriprig as R
 
     rng = ctx.rng
+    routes_by_family: dict = {}
 
     def do_nlri(x: NLRI, src: str, origin: dict) -> None:
         cp = src.endswith('corpus')
@@ -758,7 +759,13 @@ def object_streams(ctx: Ctx, book: Book, cover: Cover, pool: dict, by_value: dic
                 book.add('roundtrip-law', cls, 'bytes:' + f2[0].law, shape_of(a, f2[0].law, f2[0].detail, b), b, f2[0].detail, {'stream': 'attr-bytes', 'data': hx(b), 'asn4': asn4})
 
     def do_route(r: Any, src: str, origin: dict) -> None:
+        before = len(book.best)
         do_nlri(r.nlri, src, origin)
+        nh_afi = getattr(r.nexthop, 'afi', None)
+        same_afi = nh_afi is None or int(r.nlri.afi) not in (1, 2) or int(nh_afi) in (0, int(r.nlri.afi))
+        if R.sendable(r.nlri) and not R.has_path(r.nlri) and same_afi and not R.nlri_laws(r.nlri)[0]:
+            routes_by_family.setdefault((str(r.nlri.afi), str(r.nlri.safi)), []).append(r)
+        del before
         for _code, a in r.attributes.items():
             if R.is_wire_attribute(a):
                 do_attr(a, src, origin)
@@ -805,6 +812,9 @@ def object_streams(ctx: Ctx, book: Book, cover: Cover, pool: dict, by_value: dic
                 ctx.count('factory:rejected')
                 continue
             origin = {'factory': f'{cls.__name__}.{name}', 'args': R.show_args(kw)}
+            if type(res).__name__ == 'Flow' and not res.rules:
+                ctx.count('factory:empty-flow-container')  # make_flow returns the container that add() fills: no NLRI yet
+                continue
             if isinstance(res, NLRI):
                 do_nlri(res, 'factory', origin)
             elif R.is_wire_attribute(res):
@@ -833,6 +843,65 @@ def object_streams(ctx: Ctx, book: Book, cover: Cover, pool: dict, by_value: dic
 
     # -- source 3: decoding (captures shipped with the project; what the encoder produced is re-decoded inside the laws)
     message_stream(ctx, book, cover, do_nlri, do_attr)
+    multi_nlri_stream(ctx, book, routes_by_family, 6 if ctx.tier == 'quick' else 60)
+
+
+def multi_nlri_stream(ctx: Ctx, book: Book, routes_by_family: dict, per_family: int) -> None:
+    """Several routes of one family with the same attributes in ONE UpdateCollection: every message
+    the encoder produces must be accepted by the decoder and together they must carry exactly the
+    routes that were asked for (the shipped self-check only ever encodes one route at a time)."""
+    from exabgp.bgp.message.update.collection import RoutedNLRI, UpdateCollection
+
+    from harness import roundtriprig as R
+
+    rng = ctx.rng
+    for (afi, safi), routes in sorted(routes_by_family.items()):
+        uniq = {}
+        for r in routes:
+            try:
+                uniq.setdefault(bytes(r.nlri.pack_nlri(R.Sess.get(False))), r)
+            except Exception:  # noqa: BLE001
+                continue
+        rs = [uniq[k] for k in sorted(uniq)]
+        if len(rs) < 2:
+            continue
+        try:
+            neg = R.family_session(f'{afi} {safi}')
+        except Exception:  # noqa: BLE001
+            ctx.count('multi:no-session')
+            continue
+        for _ in range(per_family):
+            if ctx.time_left() < 5:
+                return
+            k = rng.choice([2, 2, 3, 5])
+            pick = rng.sample(rs, min(k, len(rs)))
+            ctx.evaluations += 1
+            ctx.count(f'multi:{afi}/{safi}')
+            want = sorted(bytes(r.nlri.pack_nlri(neg)).hex() for r in pick)
+            try:
+                msgs = list(UpdateCollection([RoutedNLRI(r.nlri, r.nexthop) for r in pick], [], pick[0].attributes).messages(neg))
+            except Exception as e:  # noqa: BLE001
+                ctx.count('multi:encoder-refuses:' + R.err_name(e))
+                continue
+            got = []
+            what = None
+            bad_body = b''
+            for m in msgs:
+                try:
+                    u = R.decode_update(m[19:], neg)
+                    got += [bytes(a.nlri.pack_nlri(neg)).hex() for a in u.announces]
+                except Exception as e:  # noqa: BLE001
+                    what = f'the decoder refuses a message the encoder produced: {R.err_name(e)} {str(e)[:120]}'
+                    bad_body = m[19:]
+                    break
+            if what is None and sorted(got) != want:
+                what = f'asked for {want}, decoded {sorted(got)}'
+            cls = type(pick[0].nlri).__name__
+            if what:
+                body = bad_body or (msgs[0][19:] if msgs else b'')
+                book.add('roundtrip-law', cls, 'message-with-several-nlri:decode-what-was-encoded', f'{afi}/{safi}', body, what, {'stream': 'message', 'origin': f'{len(pick)} routes of {afi} {safi} in one UpdateCollection', 'body': body.hex(), 'routes': [str(r.nlri) for r in pick]})
+            else:
+                ctx.nontrivial(['multi', afi, safi, want])
 
 
 def replay_nlri_bytes(ctx: Ctx, book: Book, cover: Cover, c: dict, src: str) -> None:
